@@ -287,7 +287,7 @@ def f_frag( ctx ):
     return res
 
 
-@rule( 'F-STATUS', props=( 'C04', ), floor=4 )
+@rule( 'F-STATUS', props=( 'C04', 'C05', 'C03' ), floor=4 )
 def f_status( ctx ):
     """Logix.request: a read replies attribute[beg:end] with status 0x00 exactly when end == endactual (fixed-size elements), else 0x06; a
     write stores data into attribute[beg:end]; the range comes from reply_elements of the same request"""
